@@ -108,6 +108,9 @@ func (server *Server) Start() error {
 
 	err = server.open()
 	if err != nil {
+		// A listener that has been opened before the failure is not served
+		// by any accept loop; it is not left open.
+		server.close()
 		return err
 	}
 	verifPoint("start.opened")
